@@ -313,6 +313,14 @@ impl EntityRight {
     }
 }
 
+/// verification hook: read access to the private fields
+#[cfg(feature = "verif")]
+impl EntityRight {
+    pub fn verif_fields(&self) -> (i64, &str, bool, bool) {
+        (self.valid_from, &self.entity, self.mutate_self, self.mutate_all)
+    }
+}
+
 ///
 /// Helper enum that define every rights
 ///
